@@ -1,12 +1,13 @@
 (* Props/C08.v -- property C08: every request is answered exactly once; ACKs and responses never are.
    Statements are per dispatch of one incoming request that starts a new server transaction, for EVERY
-   layer stack, dialog table (with any backlog) and usage list.  A taking layer / usage is assumed to
+   layer stack, dialog table (with any backlog) and usage list, and - C08_history_* - for whole histories of
+   requests dispatched one after the other.  A taking layer / usage is assumed to
    answer once through the transaction it creates (what the harness layers do; the invite usage's own
    answers are C12's subject).  Requests parked in a dialog backlog behind a CSeq gap are answered when
    released; a gap that is never filled leaves them unanswered (known finding F16a, reported by the
    check for the histories that exhibit it). *)
 From Coq Require Import List Arith NArith Bool Sorted.
-From EZK Require Import Lib.Bytes Model.C10 Model.C08 Proofs.C08.
+From EZK Require Import Gen.Tables Lib.Bytes Model.C10 Model.C08 Proofs.C08 Proofs.C08b.
 Import ListNotations.
 Close Scope N_scope.
 Open Scope nat_scope.
@@ -67,6 +68,37 @@ Theorem C08_registration_order : forall ls i ds env r,
   StronglySorted lt (offer_indices (snd (walk ls i ds env r))).
 Proof. exact offers_increasing. Qed.
 
+(* whole histories: start from dialogs with empty backlogs and dispatch any list of requests with pairwise distinct
+   identities (and, inside one dialog, pairwise distinct CSeq numbers), in any order, through any layer stack.
+   Then over the WHOLE run every non-ACK request has received exactly one final response - or it still sits in the
+   backlog of its dialog and has received none -, no ACK has been answered, and no response carries an identity
+   that was never received.  (Invariant: an identity is in at most one backlog, only identities of received
+   requests are, and being parked and having been answered exclude each other.) *)
+Theorem C08_no_overwrite_guard : dlg_backlog_no_overwrite = true.
+Proof. reflexivity. Qed.
+
+Theorem C08_history_exactly_once : forall ls ds0 rs,
+  (forall d e, nth_error ds0 d = Some e -> backlog (d_st e) = []) ->
+  NoDup (ids rs) ->
+  let ds' := fst (run ls ds0 [] rs) in
+  let evs := snd (run ls ds0 [] rs) in
+  (forall r, In r rs -> is_ack r = false ->
+     (parked_in ds' (q_id r) /\ finals (q_id r) evs = 0) \/ (~ parked_in ds' (q_id r) /\ finals (q_id r) evs = 1)) /\
+  (forall r, In r rs -> is_ack r = true -> finals (q_id r) evs = 0) /\
+  (forall x, ~ In x (ids rs) -> finals x evs = 0).
+Proof. intros ls ds0 rs. apply history_exactly_once. reflexivity. Qed.
+
+(* never twice *)
+Theorem C08_history_at_most_once : forall ls ds0 rs x,
+  (forall d e, nth_error ds0 d = Some e -> backlog (d_st e) = []) -> NoDup (ids rs) ->
+  finals x (snd (run ls ds0 [] rs)) <= 1.
+Proof.
+  intros ls ds0 rs x H0 Hnd. destruct (history_exactly_once ls ds0 rs eq_refl H0 Hnd) as (H1 & H2 & H3).
+  destruct (in_dec N.eq_dec x (ids rs)) as [Hin|Hn]; [|rewrite (H3 x Hn); auto].
+  apply in_map_iff in Hin as (r & <- & Hr). destruct (is_ack r) eqn:Ha; [rewrite (H2 r Hr Ha); auto|].
+  destruct (H1 r Hr Ha) as [[_ ->]|[_ ->]]; auto.
+Qed.
+
 (* non-vacuity: BYE in a dialog whose usages do not want it -> 404; out of dialog OPTIONS nobody takes -> 481;
    a request ahead of a gap is parked and released, answered once, by the request that fills the gap *)
 Example C08_example :
@@ -79,3 +111,17 @@ Example C08_example :
      Offer 0 4%N; UOffer 0 0 4%N; UOffer 0 1 4%N; Final 4%N 404%N false; UOffer 0 0 3%N; UOffer 0 1 3%N; Final 3%N 404%N false;
      Offer 0 5%N; UOffer 0 0 5%N; UOffer 0 1 5%N].
 Proof. vm_compute. reflexivity. Qed.
+
+Example C08_example_history :
+  let ls := [LRec [Info]; LDialog; LRec [Invite]] in
+  let ds := [mkde (C10.entry_new (Some 10%N)) [[Invite]; [Info]]] in
+  let rs := [mkq 1 Bye (Some 0) 11; mkq 2 Options None 1; mkq 3 Bye (Some 0) 13; mkq 7 Message (Some 0) 13; mkq 6 Update (Some 0) 16; mkq 4 Bye (Some 0) 12; mkq 5 Ack (Some 0) 14] in
+  NoDup (ids rs) /\
+  map (fun x => finals x (snd (run ls ds [] rs))) [1; 2; 3; 4; 5; 6; 7; 8]%N = [1; 1; 1; 1; 0; 0; 1; 0] /\
+  parked_in (fst (run ls ds [] rs)) 6%N.
+Proof.
+  split; [|split].
+  - vm_compute. repeat constructor; cbn; intuition discriminate.
+  - vm_compute. reflexivity.
+  - exists 0, (mkde (mkd (Some 15%N) [(16%N, 6%N)]) [[Invite]; [Info]]), 16%N. split; vm_compute; auto.
+Qed.
